@@ -1212,4 +1212,58 @@ example : AslProofs.Query.Sorted [([97, 32, 98], [49, 38, 50, 61, 35])] ∧
 example : parseQuery [97, 37, 50, 48, 98, 61, 49, 37, 50, 54, 50, 38, 120, 61, 43] =
     [([97, 32, 98], [49, 38, 50]), ([120], [32])] := by decide
 
+/-! ## requests the server's reader refuses: no handler call, nothing written, connection given up -/
+
+/-- **refused_request_no_handler.**  Whenever `HttpRequest::read` gives a request up (invalid first line, a header line
+that is none, a framing it cannot take, or the peer gone), for every handler plan, OPTIONS setting and file base:
+`serve(Socket)` does not call the handler, does not keep the connection, and has written nothing but the interim
+`100 Continue` that an `Expect` header had already triggered. -/
+theorem refused_request_no_handler (opt : Bool) (base : Bytes) (p : Plan) (i : Inp) (hl : ¬ (i.data.isEmpty ∨ i.dead))
+    (hr : ¬ (readRequest i).1.valid ∨ (readRequest i).2.err ∨ (readRequest i).2.closed) :
+    (serveStep opt base p i).1 = none ∧ (serveStep opt base p i).2.2.1 = false ∧
+      (serveStep opt base p i).2.1 = (if headClosed i then [] else interimOf (readRequest i).1.headers) := by
+  unfold serveStep
+  simp only [hl, if_false]
+  simp only [hr, if_true]
+  exact ⟨trivial, trivial, trivial⟩
+
+/-- every kind of request the reader refuses (each also a line of corpus/C10/refused_requests.ops, run on the real server):
+a field name with a blank; a line without colon; a first header line that continues nothing; an empty field name; a
+transfer coding that does not end in chunked; a 9-digit chunk size; a Content-Length that is no number; a chunk not
+followed by CRLF — with the cuts of the peer's sends -/
+def refusedRequests : List (Bytes × List Nat) :=
+  [([71, 69, 84, 32, 47, 32, 72, 84, 84, 80, 47, 49, 46, 49, 13, 10, 88, 45, 65, 58, 32, 49, 13, 10, 66, 97, 100, 32, 78, 97, 109, 101, 58, 32, 118, 13, 10, 13, 10], [3, 20]),
+   ([71, 69, 84, 32, 47, 97, 32, 72, 84, 84, 80, 47, 49, 46, 49, 13, 10, 110, 111, 99, 111, 108, 111, 110, 13, 10, 13, 10], []),
+   ([71, 69, 84, 32, 47, 32, 72, 84, 84, 80, 47, 49, 46, 49, 13, 10, 32, 88, 45, 70, 105, 114, 115, 116, 58, 32, 118, 13, 10, 13, 10], [1, 2, 3]),
+   ([71, 69, 84, 32, 47, 32, 72, 84, 84, 80, 47, 49, 46, 49, 13, 10, 58, 32, 118, 13, 10, 13, 10], []),
+   ([80, 79, 83, 84, 32, 47, 32, 72, 84, 84, 80, 47, 49, 46, 49, 13, 10, 84, 114, 97, 110, 115, 102, 101, 114, 45, 69, 110, 99, 111, 100, 105, 110, 103, 58, 32, 103, 122, 105, 112, 13, 10, 13, 10, 97, 98, 99], [30]),
+   ([80, 79, 83, 84, 32, 47, 32, 72, 84, 84, 80, 47, 49, 46, 49, 13, 10, 84, 114, 97, 110, 115, 102, 101, 114, 45, 69, 110, 99, 111, 100, 105, 110, 103, 58, 32, 99, 104, 117, 110, 107, 101, 100, 13, 10, 13, 10, 49, 50, 51, 52, 53, 54, 55, 56, 57, 13, 10], []),
+   ([80, 79, 83, 84, 32, 47, 32, 72, 84, 84, 80, 47, 49, 46, 49, 13, 10, 67, 111, 110, 116, 101, 110, 116, 45, 76, 101, 110, 103, 116, 104, 58, 32, 120, 13, 10, 13, 10], [17]),
+   ([80, 79, 83, 84, 32, 47, 32, 72, 84, 84, 80, 47, 49, 46, 49, 13, 10, 84, 114, 97, 110, 115, 102, 101, 114, 45, 69, 110, 99, 111, 100, 105, 110, 103, 58, 32, 99, 104, 117, 110, 107, 101, 100, 13, 10, 13, 10, 51, 13, 10, 97, 98, 99, 88, 89, 48, 13, 10, 13, 10], [50])]
+
+theorem refused_requests_hyps : ∀ x ∈ refusedRequests,
+    ¬ ((Inp.ofBytes x.1 x.2).data.isEmpty ∨ (Inp.ofBytes x.1 x.2).dead) ∧
+    (¬ (readRequest (Inp.ofBytes x.1 x.2)).1.valid ∨ (readRequest (Inp.ofBytes x.1 x.2)).2.err ∨ (readRequest (Inp.ofBytes x.1 x.2)).2.closed) ∧
+    (headClosed (Inp.ofBytes x.1 x.2) = true ∨ interimOf (readRequest (Inp.ofBytes x.1 x.2)).1.headers = []) := by
+  decide +kernel
+
+/-- **refused_requests_examples.**  The hypotheses of `refused_request_no_handler` hold for each of them (kernel
+evaluation of the reader), hence for every plan, OPTIONS setting and base: no handler, nothing written, not kept. -/
+theorem refused_requests_examples : ∀ x ∈ refusedRequests, ∀ (opt : Bool) (base : Bytes) (p : Plan),
+    (serveStep opt base p (Inp.ofBytes x.1 x.2)).1 = none ∧ (serveStep opt base p (Inp.ofBytes x.1 x.2)).2.2.1 = false ∧
+      (serveStep opt base p (Inp.ofBytes x.1 x.2)).2.1 = [] := by
+  intro x hx opt base p
+  obtain ⟨a, b, c⟩ := refused_requests_hyps x hx
+  obtain ⟨h1, h2, h3⟩ := refused_request_no_handler opt base p _ a b
+  refine ⟨h1, h2, ?_⟩
+  rw [h3]
+  rcases c with c | c <;> simp [c]
+
+/-- the refusal is not vacuous the other way: `GET / HTTP/1.1`, `X-A: 1` cut after 5 bytes reaches the handler and is kept -/
+example : (serveStep true [] { code := 200, headers := [], kind := .bytes [104, 105] }
+    (Inp.ofBytes [71, 69, 84, 32, 47, 32, 72, 84, 84, 80, 47, 49, 46, 49, 13, 10, 88, 45, 65, 58, 32, 49, 13, 10, 13, 10] [5])).1.isSome = true ∧
+    (serveStep true [] { code := 200, headers := [], kind := .bytes [104, 105] }
+    (Inp.ofBytes [71, 69, 84, 32, 47, 32, 72, 84, 84, 80, 47, 49, 46, 49, 13, 10, 88, 45, 65, 58, 32, 49, 13, 10, 13, 10] [5])).2.2.1 = true := by
+  decide +kernel
+
 end C10
